@@ -114,7 +114,8 @@ Record ss_blobber := {
 
 Record ss_validator := { vl_id : Z; vl_stake : Z; vl_npools : Z; vl_killed : bool; vl_minstake : Z; vl_rewards : Z }.
 
-Record ss_assigner := { as_id : Z; as_indiv : Z; as_total : Z; as_redeemed : Z; as_nonces : list Z }.
+Record ss_assigner := { as_id : Z; as_indiv : Z; as_total : Z; as_redeemed : Z; as_nonces : list Z;
+                        as_key : Z   (* the public key currently registered for this assigner (a key number) *) }.
 
 Record ss_chal := { ch_id : Z; ch_alloc : Z; ch_blobber : Z; ch_created : Z; ch_round : Z }.
 
@@ -1157,7 +1158,7 @@ Definition ss_upd_blobber (c : ss_conf) (s : ss_state) (sender blobber : Z) (cap
 
 Definition ss_ten10 : f64 := f64_of_Z 10000000000.
 
-Definition ss_add_assigner (c : ss_conf) (s : ss_state) (sender name : Z) (indiv total : f64) : option ss_state :=
+Definition ss_add_assigner (c : ss_conf) (s : ss_state) (sender name key : Z) (indiv total : f64) : option ss_state :=
   _ <- ss_guard (sender =? cf_owner c) ;;
   t <- f64_float_to_coin (f64_mul total ss_ten10) ;;
   _ <- ss_guard (t <=? cf_max_total_free c) ;;
@@ -1166,7 +1167,8 @@ Definition ss_add_assigner (c : ss_conf) (s : ss_state) (sender name : Z) (indiv
   let old := ss_find_assigner name (st_assigners s) in
   let a := {| as_id := name; as_indiv := i; as_total := t;
               as_redeemed := match old with Some o => as_redeemed o | None => 0 end;
-              as_nonces := match old with Some o => as_nonces o | None => [] end |} in
+              as_nonces := match old with Some o => as_nonces o | None => [] end;
+              as_key := key (* a re-registration replaces the key *) |} in
   Some (st_with_assigners s (ss_set_assigner a (st_assigners s))).
 
 (* freeAllocationRequest; [coin] = currency.ParseZCN(marker.FreeTokens) recorded from the run *)
@@ -1183,13 +1185,18 @@ Definition ss_free_alloc (c : ss_conf) (s : ss_state) (now id sender assigner re
   s1 <- ss_new_alloc c s now id recipient (cf_owner c) wtok 0 (cf_free_data c) (cf_free_parity c) (cf_free_size c) blobbers
                      (0, cf_free_max_rp c) (0, cf_free_max_wp c) true ;;
   let a' := {| as_id := as_id a; as_indiv := as_indiv a; as_total := as_total a; as_redeemed := nt;
-               as_nonces := as_nonces a ++ [nonce] |} in
+               as_nonces := as_nonces a ++ [nonce]; as_key := as_key a |} in
   let s2 := st_with_assigners s1 (ss_set_assigner a' (st_assigners s1)) in
   (* read pool tokens are credited without any transfer (isMint) *)
   v <- ss_add_coin (ss_assoc0 recipient (st_rpools s2)) rtok ;;
   Some (st_with_rpools s2 (ss_assoc_set recipient v (st_rpools s2))).
 
 (* ---------- operations, step, run ---------- *)
+
+(* verifyFreeAllocationRequestNew: the marker is signed with the key registered for its assigner NOW
+   ([signer]: the key number the marker was signed with) *)
+Definition ss_marker_sig_ok (s : ss_state) (assigner signer : Z) : bool :=
+  match ss_find_assigner assigner (st_assigners s) with Some a => signer =? as_key a | None => false end.
 
 Inductive ss_op :=
 | OpBad
@@ -1207,8 +1214,8 @@ Inductive ss_op :=
 | OpKill (sender blobber : Z)
 | OpShutdown (sender blobber : Z)
 | OpUpdBlobber (sender blobber : Z) (cap wp rp : option Z) (notavail : option bool)
-| OpAddAssigner (sender name indiv total : Z)
-| OpFreeAlloc (id sender assigner recipient : Z) (coin : option Z) (nonce : Z) (sig_ok : bool) (blobbers : list Z).
+| OpAddAssigner (sender name key indiv total : Z)
+| OpFreeAlloc (id sender assigner recipient : Z) (coin : option Z) (nonce : Z) (signer : Z) (blobbers : list Z).
 
 Definition ss_apply (c : ss_conf) (s : ss_state) (now round : Z) (o : ss_op) : option ss_state :=
   match o with
@@ -1229,9 +1236,9 @@ Definition ss_apply (c : ss_conf) (s : ss_state) (now round : Z) (o : ss_op) : o
   | OpKill sender blobber => ss_kill c s sender blobber
   | OpShutdown sender blobber => ss_shutdown c s sender blobber
   | OpUpdBlobber sender blobber cap wp rp na => ss_upd_blobber c s sender blobber cap wp rp na
-  | OpAddAssigner sender name indiv total => ss_add_assigner c s sender name (f64_of_bits indiv) (f64_of_bits total)
-  | OpFreeAlloc id sender assigner recipient coin nonce sig_ok bl =>
-      ss_free_alloc c s now id sender assigner recipient coin nonce sig_ok bl
+  | OpAddAssigner sender name key indiv total => ss_add_assigner c s sender name key (f64_of_bits indiv) (f64_of_bits total)
+  | OpFreeAlloc id sender assigner recipient coin nonce signer bl =>
+      ss_free_alloc c s now id sender assigner recipient coin nonce (ss_marker_sig_ok s assigner signer) bl
   end.
 
 (* did the unchecked addition of adjustChallengePool wrap while this transaction executed? *)
